@@ -42,6 +42,7 @@
 #include "parameters.hpp"
 #include "transpositionTable.hpp"
 #include "constants.hpp"
+#include "computerPlayer.hpp"
 #undef private
 #undef protected
 
@@ -270,6 +271,7 @@ static std::string cmdPV(Env& env, const std::vector<std::string>& f) {
 
 int main(int argc, char** argv) {
     std::ios::sync_with_stdio(false);
+    ComputerPlayer::initEngine();      // as app/texel/texel.cpp main does (piece values, tables)
     Env env;
     env.emt.setupTT();
     // a stand-alone Search object for NOTIFY
